@@ -27,6 +27,7 @@ type IsoWorld struct {
 	a, b, c *rosmar.Collection // subject, witness in b1, witness in b2
 	fa, fb, fc *FeedRec
 	aDropped, bDropped bool
+	hasIndex bool // an SQL index was created through the subject collection (not visible in any table dump)
 	wit     string // last witness observation
 	oldFeeds []*FeedRec
 	step    int
@@ -78,7 +79,7 @@ func (w *IsoWorld) Bucket() *rosmar.Bucket { return w.b1 }
 
 func (w *IsoWorld) Alphabet(tier int) []string {
 	return []string{"Set/k", "Set/j", "Set/exp", "Add/t", "Delete/k", "Touch/k", "GetAndTouch/j", "SetXattrs/k", "WriteWithXattrs/t", "WriteTombstone/k", "Incr/n", "Update/k",
-		"PutDDoc", "PutDDoc2", "DeleteDDoc", "View", "ViewStale", "Query", "CreateIndex", "Purge", "Purge/y", "Advance/20", "Advance/60", "DropA", "DropA/x", "DropA/y", "RecreateA", "RecreateA/x", "Lookup/other", "CreateExisting/y", "DropB", "WriteSubDoc/k", "DeleteWithXattrs/k", "SetWithMeta/k"}
+		"PutDDoc", "PutDDoc2", "DeleteDDoc", "View", "ViewStale", "Query", "CreateIndex", "Witness.SetRaw", "Purge", "Purge/y", "Advance/20", "Advance/60", "DropA", "DropA/x", "DropA/y", "RecreateA", "RecreateA/x", "Lookup/other", "CreateExisting/y", "DropB", "WriteSubDoc/k", "DeleteWithXattrs/k", "SetWithMeta/k"}
 }
 
 func viewString(c *rosmar.Collection, ddoc, view string, params map[string]any) string {
@@ -164,7 +165,7 @@ func (w *IsoWorld) Apply(op string) (string, []Violation) {
 	var err error
 	bucketWide := false // the operation legitimately acts on every collection of b1
 	allExpire := false
-	if w.aDropped && !strings.HasPrefix(op, "RecreateA") && op != "DropB" && !strings.HasPrefix(op, "Purge") && !strings.HasPrefix(op, "Advance") {
+	if w.aDropped && !strings.HasPrefix(op, "RecreateA") && op != "DropB" && op != "Witness.SetRaw" && !strings.HasPrefix(op, "Purge") && !strings.HasPrefix(op, "Advance") {
 		return "skip", nil
 	}
 	switch op {
@@ -219,7 +220,20 @@ func (w *IsoWorld) Apply(op string) (string, []Violation) {
 			c.add("C11", "query-leak", "a query on sc.A returned documents of another collection: %s", r)
 		}
 	case "CreateIndex":
-		err = w.a.CreateIndex(fmt.Sprintf("ix%d", w.step), "body", "")
+		err = w.a.CreateIndex(fmt.Sprintf("ix%d", w.step), "body->>'v'", "") // an expression over JSON bodies
+		if err == nil {
+			w.hasIndex = true
+		}
+	case "Witness.SetRaw":
+		// a write addressed to the witness collection itself (a non-JSON body): whatever was done to the
+		// subject collection before, it succeeds
+		if w.bDropped {
+			return "skip", nil
+		}
+		if werr := w.b.SetRaw("r", 0, nil, []byte("not json")); werr != nil {
+			c.add("C11", "witness-write", "a raw write to the witness collection fails after operations addressed only to the subject collection: %v", werr)
+		}
+		bucketWide = true // re-baseline: the witness changed by its own operation
 	case "Purge":
 		_, err = w.b1.PurgeTombstones()
 		bucketWide = true
@@ -422,7 +436,7 @@ func (w *IsoWorld) Canon() string {
 			wits++
 		}
 	}
-	return fmt.Sprintf("A=%v views=%v dropA=%v dropB=%v witB=%d now=%d caches=%s/%s", parts, views, w.aDropped, w.bDropped, wits, now-uint32(vrt.Epoch/1e9), CacheState(w.b1), CacheState(w.b1x))
+	return fmt.Sprintf("A=%v views=%v dropA=%v dropB=%v witB=%d now=%d index=%v caches=%s/%s", parts, views, w.aDropped, w.bDropped, wits, now-uint32(vrt.Epoch/1e9), w.hasIndex, CacheState(w.b1), CacheState(w.b1x))
 }
 
 func (w *IsoWorld) Close() {
